@@ -68,17 +68,31 @@ impl Bounds {
             return Self::singleton(0.0);
         }
         if coefficient > 0.0 {
-            Self::new(self.lower * coefficient, self.upper * coefficient)
+            Self::new(
+                product_down(self.lower, coefficient),
+                product_up(self.upper, coefficient),
+            )
         } else {
-            Self::new(self.upper * coefficient, self.lower * coefficient)
+            Self::new(
+                product_down(self.upper, coefficient),
+                product_up(self.lower, coefficient),
+            )
         }
     }
 
     pub(crate) fn div_by(self, divisor: f64) -> Self {
         if divisor == 0.0 {
             Self::UNBOUNDED
+        } else if divisor > 0.0 {
+            Self::new(
+                quotient_down(self.lower, divisor),
+                quotient_up(self.upper, divisor),
+            )
         } else {
-            self.scale(1.0 / divisor)
+            Self::new(
+                quotient_down(self.upper, divisor),
+                quotient_up(self.lower, divisor),
+            )
         }
     }
 
@@ -93,10 +107,23 @@ impl Bounds {
     }
 }
 
+// Interval arithmetic rounds outward: a bound is moved to the neighbouring
+// float only when the floating point operation was inexact in the unsafe
+// direction, so that exact computations keep their exact results and an
+// inexact one can never cut a value the real-number result would allow.
+
+/// The rounding error of `lhs + rhs` (exact, by the two-sum transformation).
+fn sum_error(lhs: f64, rhs: f64, sum: f64) -> f64 {
+    let rhs_part = sum - lhs;
+    (lhs - (sum - rhs_part)) + (rhs - rhs_part)
+}
+
 fn lower_sum(lhs: f64, rhs: f64) -> f64 {
     let value = lhs + rhs;
     if value.is_nan() {
         f64::NEG_INFINITY
+    } else if value.is_finite() && sum_error(lhs, rhs, value) < 0.0 {
+        value.next_down()
     } else {
         value
     }
@@ -104,7 +131,56 @@ fn lower_sum(lhs: f64, rhs: f64) -> f64 {
 
 fn upper_sum(lhs: f64, rhs: f64) -> f64 {
     let value = lhs + rhs;
-    if value.is_nan() { f64::INFINITY } else { value }
+    if value.is_nan() {
+        f64::INFINITY
+    } else if value.is_finite() && sum_error(lhs, rhs, value) > 0.0 {
+        value.next_up()
+    } else {
+        value
+    }
+}
+
+fn product_down(lhs: f64, rhs: f64) -> f64 {
+    let value = lhs * rhs;
+    if value.is_finite() && lhs.mul_add(rhs, -value) < 0.0 {
+        value.next_down()
+    } else {
+        value
+    }
+}
+
+fn product_up(lhs: f64, rhs: f64) -> f64 {
+    let value = lhs * rhs;
+    if value.is_finite() && lhs.mul_add(rhs, -value) > 0.0 {
+        value.next_up()
+    } else {
+        value
+    }
+}
+
+/// The sign of the remainder `dividend - quotient * divisor`, relative to the
+/// divisor: positive when the real quotient is above the computed one.
+fn quotient_error(dividend: f64, divisor: f64, quotient: f64) -> f64 {
+    let remainder = (-quotient).mul_add(divisor, dividend);
+    if divisor > 0.0 { remainder } else { -remainder }
+}
+
+fn quotient_down(dividend: f64, divisor: f64) -> f64 {
+    let value = dividend / divisor;
+    if value.is_finite() && quotient_error(dividend, divisor, value) < 0.0 {
+        value.next_down()
+    } else {
+        value
+    }
+}
+
+fn quotient_up(dividend: f64, divisor: f64) -> f64 {
+    let value = dividend / divisor;
+    if value.is_finite() && quotient_error(dividend, divisor, value) > 0.0 {
+        value.next_up()
+    } else {
+        value
+    }
 }
 
 #[derive(Debug, Clone)]
@@ -197,7 +273,7 @@ impl AffineForm {
                             None
                         } else {
                             let mut lhs = Self::from_exp(lhs)?;
-                            lhs.scale(1.0 / divisor);
+                            lhs.divide(*divisor);
                             Some(lhs)
                         }
                     } else {
@@ -245,6 +321,16 @@ impl AffineForm {
             *value != 0.0
         });
         self.constant *= coefficient;
+    }
+
+    /// Divides the form the way the linearizer divides the row (a division, not
+    /// a multiplication by the reciprocal, which differs in the last digit).
+    fn divide(&mut self, divisor: f64) {
+        self.coefficients.retain(|_, value| {
+            *value /= divisor;
+            *value != 0.0
+        });
+        self.constant /= divisor;
     }
 }
 
